@@ -5,6 +5,7 @@ import (
 	"errors"
 	"fmt"
 	"strconv"
+	"strings"
 
 	"github.com/scrapli/scrapligo/util"
 )
@@ -107,7 +108,8 @@ func (d *Driver) processServerCapabilities() error {
 
 	d.serverCapabilities = make([]string, 0, len(serverCapabilitiesMatches))
 	for _, match := range serverCapabilitiesMatches {
-		d.serverCapabilities = append(d.serverCapabilities, string(match[1]))
+		// capability text may be laid out on its own line(s), surrounded by whitespace
+		d.serverCapabilities = append(d.serverCapabilities, strings.TrimSpace(string(match[1])))
 	}
 
 	// extract session id if it exists in the hello message
